@@ -429,7 +429,8 @@ def run_cli(args, text=None, path_text=None, ext=".json", out_file=False, timeou
         cmd += ["-o", op]
     try:
         p = subprocess.run(cmd, input=inp, capture_output=True, text=True, timeout=timeout)
-        res = {"exit": p.returncode, "stdout": p.stdout, "stderr": p.stderr[-3000:]}
+        err = p.stderr if len(p.stderr) <= 4000 else p.stderr[:2000] + "\n...[cut]...\n" + p.stderr[-2000:]
+        res = {"exit": p.returncode, "stdout": p.stdout, "stderr": err}
     except subprocess.TimeoutExpired:
         res = {"exit": "timeout", "stdout": "", "stderr": ""}
     res["outfile"] = None
@@ -484,9 +485,22 @@ def gambit_ranks(fg):
     return rank, sorted(nums)
 
 
+def tofloat(x):
+    """BigRational::to_f64: values beyond the binary64 range become +-inf"""
+    try:
+        return float(x)
+    except OverflowError:
+        return math.inf if x > 0 else -math.inf
+
+
 def coq_enode(fg, rank):
-    from .common import coq_float
+    from .common import coq_float as _cf
     from .coqrun import coq_N, coq_list
+
+    def coq_float(x):
+        return _cf(x)
+
+    float = tofloat
 
     def pay(p):
         return "None" if p is None else "(Some (%s, %s))" % (coq_float(float(p[0])), coq_float(float(p[1])))
